@@ -837,6 +837,8 @@ func escapeProfile() Profile {
 			Def("f", []*Param{PStarStar("k")}, []*Node{Return(Name("k"))}),
 			Def("f", []*Param{PD("p", List()), PStar("a")}, []*Node{ExprS(Call(Attr(Name("p"), "append"), Name("a"))), Return(Name("p"))}),
 			Def("f", []*Param{P("p"), P("q")}, []*Node{Return(Lambda(nil, Tuple(Name("p"), Name("q"))))}),
+			// a built-in of the application that keeps the argument tuple it is given
+			Assign("=", Name("f"), Name("pack")),
 		}
 	}
 	calls := func() []*Node {
